@@ -7,13 +7,77 @@ use linfa::DatasetBase;
 use linfa_clustering::{Dbscan, Optics};
 use linfa_nn::distance::{Distance, L1Dist, L2Dist, LInfDist};
 use linfa_nn::CommonNearestNeighbour;
-use ndarray::Array2;
+use ndarray::{s, Array2, ArrayView2, ShapeBuilder};
 
 pub const INDICES: [(CommonNearestNeighbour, &str); 3] = [
     (CommonNearestNeighbour::LinearSearch, "LinearSearch"),
     (CommonNearestNeighbour::KdTree, "KdTree"),
     (CommonNearestNeighbour::BallTree, "BallTree"),
 ];
+
+/// Memory layouts in which the same logical n x d records are handed to linfa.
+pub const LAYOUTS: [&str; 7] = [
+    "layout_row_major",
+    "layout_column_major",
+    "layout_row_gaps",
+    "layout_strided_both_axes",
+    "layout_reversed_rows",
+    "layout_reversed_columns",
+    "layout_transposed_view",
+];
+const JUNK: f64 = 7777.25;
+
+/// Records in one of the `LAYOUTS`: a backing buffer plus the view of it that shows the logical data.
+pub struct Laid {
+    backing: Array2<f64>,
+    kind: u8,
+    n: usize,
+    d: usize,
+}
+
+impl Laid {
+    pub fn new(std: &Array2<f64>, kind: u8) -> Laid {
+        let (n, d) = std.dim();
+        let kind = kind % LAYOUTS.len() as u8;
+        let backing = match kind {
+            // column-major (Fortran order) owned array
+            1 => Array2::from_shape_fn((n, d).f(), |(i, j)| std[(i, j)]),
+            // one junk column left and right of the data: rows contiguous, rows not adjacent
+            2 => Array2::from_shape_fn((n, d + 2), |(i, j)| if j >= 1 && j <= d { std[(i, j - 1)] } else { JUNK }),
+            // every second row and every second column of a junk-filled buffer
+            3 => Array2::from_shape_fn((2 * n, 2 * d), |(i, j)| if i % 2 == 0 && j % 2 == 0 { std[(i / 2, j / 2)] } else { JUNK }),
+            // stored bottom-up, shown through a view with negative row stride
+            4 => Array2::from_shape_fn((n, d), |(i, j)| std[(n - 1 - i, j)]),
+            // stored right-to-left, shown through a view with negative column stride
+            5 => Array2::from_shape_fn((n, d), |(i, j)| std[(i, d - 1 - j)]),
+            // features x samples, shown transposed
+            6 => Array2::from_shape_fn((d, n), |(j, i)| std[(i, j)]),
+            _ => std.clone(),
+        };
+        Laid { backing, kind, n, d }
+    }
+    pub fn view(&self) -> ArrayView2<f64> {
+        let (n, d) = (self.n, self.d);
+        match self.kind {
+            2 => self.backing.slice(s![.., 1..d + 1]),
+            3 => self.backing.slice(s![..;2, ..;2]),
+            4 => self.backing.slice(s![..;-1, ..]),
+            5 => self.backing.slice(s![.., ..;-1]),
+            6 => self.backing.t(),
+            _ => {
+                let _ = n;
+                self.backing.view()
+            }
+        }
+    }
+    pub fn name(&self) -> &'static str {
+        LAYOUTS[self.kind as usize]
+    }
+    /// `KdTree` documents that it panics unless every point is laid out contiguously
+    pub fn rows_contiguous(&self) -> bool {
+        self.view().rows().into_iter().all(|r| r.to_slice().is_some())
+    }
+}
 
 pub fn to_array(pts: &[Vec<f64>], dim: usize) -> Option<Array2<f64>> {
     let flat: Vec<f64> = pts.iter().flat_map(|r| r.iter().copied()).collect();
@@ -91,7 +155,7 @@ fn apply_steps<P>(
 }
 
 fn dbscan_with<D: Distance<f64>>(
-    x: &Array2<f64>,
+    x: ArrayView2<f64>,
     min_points: usize,
     tol: f64,
     d: D,
@@ -107,17 +171,17 @@ fn dbscan_with<D: Distance<f64>>(
     };
     let params = apply_steps(start, b, real, tol, &nn, |p, v| p.tolerance(v), |p, i| p.nn_algo(i), |p| p.dist_fn(d.clone()));
     if through_dataset {
-        let ds = DatasetBase::from(x.clone());
-        let out: Result<DatasetBase<Array2<f64>, ndarray::Array1<Option<usize>>>, _> = params.transform(ds);
+        let ds = DatasetBase::from(x);
+        let out: Result<DatasetBase<ArrayView2<f64>, ndarray::Array1<Option<usize>>>, _> = params.transform(ds);
         out.map(|o| o.targets().to_vec()).map_err(|e| e.to_string())
     } else {
-        let out: Result<ndarray::Array1<Option<usize>>, _> = params.transform(x);
+        let out: Result<ndarray::Array1<Option<usize>>, _> = params.transform(&x);
         out.map(|a| a.to_vec()).map_err(|e| e.to_string())
     }
 }
 
 pub fn dbscan(
-    x: &Array2<f64>,
+    x: ArrayView2<f64>,
     min_points: usize,
     tol: f64,
     m: Metric,
@@ -133,7 +197,7 @@ pub fn dbscan(
 }
 
 fn optics_with<D: Distance<f64>>(
-    x: &Array2<f64>,
+    x: ArrayView2<f64>,
     min_points: usize,
     tol: f64,
     d: D,
@@ -147,7 +211,7 @@ fn optics_with<D: Distance<f64>>(
         _ => (Optics::params_with::<f64, D, CommonNearestNeighbour>(min_points, d.clone(), decoy_index(&nn)), false),
     };
     let params = apply_steps(start, b, real, tol, &nn, |p, v| p.tolerance(v), |p, i| p.nn_algo(i), |p| p.dist_fn(d.clone()));
-    let out: Result<linfa_clustering::OpticsAnalysis<f64>, _> = params.transform(x.view());
+    let out: Result<linfa_clustering::OpticsAnalysis<f64>, _> = params.transform(x);
     out.map(|a| {
         a.iter()
             .map(|s| OSample { index: s.index(), core: *s.core_distance(), reach: *s.reachability_distance() })
@@ -156,7 +220,7 @@ fn optics_with<D: Distance<f64>>(
     .map_err(|e| e.to_string())
 }
 
-pub fn optics(x: &Array2<f64>, min_points: usize, tol: f64, m: Metric, nn: CommonNearestNeighbour, b: Build) -> Result<Vec<OSample>, String> {
+pub fn optics(x: ArrayView2<f64>, min_points: usize, tol: f64, m: Metric, nn: CommonNearestNeighbour, b: Build) -> Result<Vec<OSample>, String> {
     match m {
         Metric::L1 => optics_with(x, min_points, tol, L1Dist, nn, b, None),
         Metric::L2 => optics_with(x, min_points, tol, L2Dist, nn, b, Some(Optics::params::<f64>(min_points))),
@@ -164,9 +228,9 @@ pub fn optics(x: &Array2<f64>, min_points: usize, tol: f64, m: Metric, nn: Commo
     }
 }
 
-fn relation_with<D: Distance<f64> + 'static>(x: &Array2<f64>, tol: f64, d: D, nn: CommonNearestNeighbour) -> Result<Vec<Vec<usize>>, String> {
+fn relation_with<D: Distance<f64> + 'static>(x: ArrayView2<f64>, tol: f64, d: D, nn: CommonNearestNeighbour) -> Result<Vec<Vec<usize>>, String> {
     use linfa_nn::NearestNeighbour;
-    let index = nn.from_batch(x, d).map_err(|e| e.to_string())?;
+    let index = nn.from_batch(&x, d).map_err(|e| e.to_string())?;
     let mut out = Vec::with_capacity(x.nrows());
     for row in x.rows() {
         let mut v: Vec<usize> = index.within_range(row, tol).map_err(|e| e.to_string())?.into_iter().map(|(_, i)| i).collect();
@@ -179,7 +243,7 @@ fn relation_with<D: Distance<f64> + 'static>(x: &Array2<f64>, tol: f64, d: D, nn
 /// What the index itself answers to "which samples are within `tol` of sample i", for every i —
 /// the very queries DBSCAN and OPTICS make. Used in the tie class only, to learn which convention
 /// (`<` or `<=`) the index applies to pairs at a distance of exactly `tol`.
-pub fn relation(x: &Array2<f64>, tol: f64, m: Metric, nn: CommonNearestNeighbour) -> Result<Vec<Vec<usize>>, String> {
+pub fn relation(x: ArrayView2<f64>, tol: f64, m: Metric, nn: CommonNearestNeighbour) -> Result<Vec<Vec<usize>>, String> {
     match m {
         Metric::L1 => relation_with(x, tol, L1Dist, nn),
         Metric::L2 => relation_with(x, tol, L2Dist, nn),
